@@ -443,8 +443,14 @@ type target struct {
 
 func (t *target) Update(alpha float64, new int64, err error) {
 	old := atomic.LoadInt64(&t.latency)
-	if !t.Alive(err) {
+	if err == ErrDial {
+		t.alive = false
 		atomic.StoreInt64(&t.latency, clientLatency)
+	} else if !t.alive {
+		// A call that completes after the target has been found dead does not
+		// bring it back: only the detector's probe does, because the probe
+		// also puts the target back into the list. Marking it alive here
+		// would stop the probing of a target that is not in the list.
 	} else if old >= clientLatency {
 		atomic.StoreInt64(&t.latency, new)
 	} else {
